@@ -308,6 +308,11 @@ func execDecide(in, out string) {
 // the Lean model. "A selector matches" has the Kubernetes meaning (invalid and empty selectors
 // never count).
 func documentedConcrete(st *decideState) (bool, string) {
+	return documented(abstractRowOf(st))
+}
+
+// abstractRowOf: the abstract row of a concrete decision input (the harness' own abstraction, with its own ignored list).
+func abstractRowOf(st *decideState) row {
 	var r row
 	r.hostNet = st.spec.HostNetwork
 	r.nsIgnored = isDocumentedIgnored(st.meta.Namespace)
@@ -345,7 +350,7 @@ func documentedConcrete(st *decideState) (bool, string) {
 	default:
 		r.policy = pOther
 	}
-	return documented(r)
+	return r
 }
 
 func oracleDecide(in, out string) {
